@@ -311,6 +311,14 @@ void orc_c18_api(const ApiRec &r, const Frame &f, const std::string &snap0, cons
     s.tb_success_times.push_back(now);
     uint64_t period = 1000000000ULL / s.tb_rate;
     size_t m = s.tb_success_times.size();
+    // a bucket set on a module at rest is not refilled before the module runs: until then the burst is all there is
+    {
+        int entered = s.enter_running_from_rest - s.tb_enter_running_at_set;
+        if (r.name == "start" && r.st_before != ST_RUNNING && r.st_before != ST_PAUSED) entered -= 1;   // (this very call started it)
+        if ((s.tb_st_at_set == ST_IDLE || s.tb_st_at_set == ST_STOPPED) && entered <= 0 && f.script_ops == 0 && m > s.tb_burst)
+            VIOL("C18", "C18:rate-exceeded:at-rest", "module slot %d (burst %lu, bucket set while the module was not running and never run since): %zu token consuming calls succeeded, no refill can have happened", actor,
+                 (unsigned long)s.tb_burst, m);
+    }
     for (size_t i = 0; i < m; i++) {
         uint64_t dt = now - s.tb_success_times[i];
         // burst + whole refill periods in the window + 1 (phase of the discrete ticks) + 1 (one expiry that occurred before the
